@@ -1,4 +1,5 @@
 import ErbiumModel.Lemmas.DhcpWire
+import ErbiumModel.Lemmas.DhcpDecoded
 import ErbiumModel.Lemmas.Frame
 import ErbiumModel.Generated.Dhcp
 import ErbiumModel.Lemmas.Enum
@@ -93,6 +94,23 @@ theorem C12_destination (f : Fin 65536) (yiaddr : Nat) :
   simp only [c1, c2, c3, h, Bool.true_and]
   by_cases hf : f.val ≥ 0x8000 <;> simp [hf]
 
+
+/-- (a2) **The hypothesis of the round trip is what the decoder produces**: every message decoded
+    from *any* list of octets is well formed (header fields in range, `hlen` = hardware-address
+    length ≤ 16, `sname`/`file` NUL-free and within their fields, option codes distinct and never
+    0 or 255). So `Wf` excludes no message the server can ever hold after `dhcppkt::parse`. -/
+theorem C12_decoded_wellformed (pkt : List Nat) (hb : ∀ b ∈ pkt, b < 256) (m : DhcpWire.Dhcp)
+    (h : DhcpWire.parse pkt = .ok m) : DhcpWire.Wf m :=
+  DhcpWire.parse_wf pkt hb m h
+
+/-- (a3) **Decode, encode, decode**, with no well-formedness hypothesis: whatever octet string the
+    decoder accepts, re-encoding the result and decoding again gives the same message — nothing a
+    client sent is lost or altered by a pass through the codec (relay echo fields, option 82,
+    options split over several instances). -/
+theorem C12_decode_encode_decode (pkt : List Nat) (hb : ∀ b ∈ pkt, b < 256) (m : DhcpWire.Dhcp)
+    (h : DhcpWire.parse pkt = .ok m) : DhcpWire.parse (DhcpWire.serialise m) = .ok m :=
+  DhcpWire.parse_serialise_parse pkt hb m h
+
 /-! Non-vacuity: concrete instances of the hypotheses. -/
 def exampleMsg : DhcpWire.Dhcp :=
   { op := 2, htype := 1, hlen := 6, hops := 0, xid := 0xdeadbeef, secs := 0,
@@ -107,5 +125,9 @@ def exampleUdp : Frame.Udp4 :=
     dst := [255, 255, 255, 255], dport := 68, dmac := [2, 0, 0, 0, 0, 1], payload := [1, 2, 3] }
 example : Frame.WfU exampleUdp := by
   constructor <;> simp [exampleUdp] <;> omega
+
+/-- the decoder does accept octet strings: the encoding of `exampleMsg` is one -/
+example : DhcpWire.parse (DhcpWire.serialise exampleMsg) = .ok exampleMsg :=
+  C12_roundtrip exampleMsg (by constructor <;> simp [exampleMsg, DhcpWire.OptsWf])
 
 end Erbium.Props.C12
